@@ -89,32 +89,42 @@ Proof.
 Qed.
 Print Assumptions C05_guard_falls_back.
 
-(* The statement at full strength (numeric bindings, no exclusion of ^ and of NumPy-scalar division
-   by zero) is FALSE for the code as it is: one witness per known-finding class. *)
+(* The statement at full strength — numeric bindings, EVERY operator of the compilable grammar (Divide and
+   Power included since the emitted code calls compiled_divide / eval_dyad_power) — now holds: D5 is just
+   "the variables are bound to numeric scalars, rank-1 or rank-2 arrays". *)
 Definition C05_full_statement : Prop := full_statement np_tables call_guard.
+
+Theorem C05_full_statement_holds : C05_full_statement.
+Proof.
+  exact (eq_ind_r (fun g => full_statement np_tables g)
+          (fun e rho0 rho c C D v R =>
+             run_compiled_interp np_tables (eq_refl : tables_ok np_tables = true) rho0 rho e c C D v R)
+          (eq_refl : call_guard = true)).
+Qed.
+Print Assumptions C05_full_statement_holds.
 
 Definition four_real : num := NR (z2f 4).
 
-(* K4  a::4.0; a^2  -> 16.0 compiled, 16 interpreted *)
-Theorem C05_power_kind_refuted : ~ C05_full_statement.
+(* The repaired classes, as the tree had them (parameterised by what the translator reads).
+   Power as ** :  a::4.0; a^2  -> 16.0 compiled, 16 interpreted *)
+Theorem C05_power_kind_refuted_with_infix : ~ full_statement (with_infix_div_pow np_tables) true.
 Proof.
-  refine (refute np_tables call_guard (EDyad "^" (ESym "a") (ELitI 2))
+  refine (refute _ true (EDyad "^" (ESym "a") (ELitI 2))
             (env1 "a" (VS false four_real)) (env1 "a" (VS false four_real)) _ _ _ _ _ _ _ _);
     [vm_compute; reflexivity | vm_compute; reflexivity | vm_compute; reflexivity | vm_compute; reflexivity |].
   intros v' H. injection H as <-. vm_compute. discriminate.
 Qed.
 
-(* K6  a::[1 2 3]; (+/a)%0  -> inf compiled, :undefined interpreted *)
-Theorem C05_divide_numpy_zero_refuted : ~ C05_full_statement.
+(* Divide as / :  a::[1 2 3]; (+/a)%0  -> inf compiled, :undefined interpreted *)
+Theorem C05_divide_numpy_zero_refuted_with_infix : ~ full_statement (with_infix_div_pow np_tables) true.
 Proof.
-  refine (refute np_tables call_guard (EDyad "%" (EAdv "+" "/" (ESym "a")) (ELitI 0))
+  refine (refute _ true (EDyad "%" (EAdv "+" "/" (ESym "a")) (ELitI 0))
             (env1 "a" (V1 [NI 1; NI 2; NI 3])) (env1 "a" (V1 [NI 1; NI 2; NI 3])) _ _ _ _ _ _ _ _);
     [vm_compute; reflexivity | vm_compute; reflexivity | vm_compute; reflexivity | vm_compute; reflexivity |].
   intros v' H. injection H as <-. vm_compute. discriminate.
 Qed.
 
-(* The repaired classes, as the pinned tree had them (parameterised by what the translator reads):
-   np.cumsum/np.cumprod as scan table — a matrix is scanned flattened *)
+(* np.cumsum/np.cumprod as scan table — a matrix is scanned flattened *)
 Theorem C05_scan_matrix_refuted_with_cumsum : ~ full_statement (with_cumsum np_tables) true.
 Proof.
   refine (refute _ true (EAdv "+" "\" (ESym "a"))
